@@ -112,11 +112,13 @@ DecRest(buf) ==
 DecSeen(buf, seen) == seen \/ UnitsIn(buf) # <<>>
 
 -----------------------------------------------------------------------------
-(* specification-level definitions: the text, and positions computed from widths *)
+(* specification-level definitions: the text, and positions computed from widths
+(TLC re-evaluates a definition at every use: invariants bind Input once with LET) *)
 Input    == Concat(strings)
 NChars   == Len(Input)
-Widths   == [j \in 1..NChars |-> WidthOf(Input[j])]
-EndOff(m) == BomLen + SumR(Widths, 1, m)      \* wire offset where character m ends
+WidthsOf(inp) == [j \in 1..Len(inp) |-> WidthOf(inp[j])]
+EndOffIn(inp, m) == BomLen + SumR(WidthsOf(inp), 1, m)   \* wire offset where character m ends
+EndOff(m) == LET inp == Input IN EndOffIn(inp, m)
 (* what the documented "independent data" mode (incremental=False) produces when
    decoded incrementally: every BOM but the first becomes U+FEFF *)
 IndependentText ==
@@ -195,18 +197,21 @@ OneBOM == encinc => OneBOMAlways
    m characters are out; they are exactly those that end at or before pos. *)
 ConfluenceAlways ==
     ph = "dec" =>
-        LET m == Len(out)
-            b == IF m = 0 /\ pos < BomLen THEN 0 ELSE EndOff(m)   \* last unit boundary <= pos
-        IN /\ m <= NChars
-           /\ out = SubSeq(Input, 1, m)
+        LET inp == Input
+            m == Len(out)
+            endm == EndOffIn(inp, m)
+            b == IF m = 0 /\ pos < BomLen THEN 0 ELSE endm       \* last unit boundary <= pos
+        IN /\ m <= Len(inp)
+           /\ out = SubSeq(inp, 1, m)
            /\ b <= pos
-           /\ m < NChars => EndOff(m + 1) > pos
+           /\ m < Len(inp) => endm + WidthOf(inp[m + 1]) > pos
            /\ pending = SubSeq(wire, b + 1, pos)
 Confluence == encinc => ConfluenceAlways
 
 (* nothing is emitted before it has been completely received; nothing is replaced *)
-NoEarlyOutput == encinc /\ Len(out) > 0 => Len(out) <= NChars /\ EndOff(Len(out)) <= pos
-PrefixOK == encinc => Len(out) <= NChars /\ out = SubSeq(Input, 1, Len(out))
+NoEarlyOutput == encinc /\ Len(out) > 0 =>
+                    LET inp == Input IN Len(out) <= Len(inp) /\ EndOffIn(inp, Len(out)) <= pos
+PrefixOK == encinc => LET inp == Input IN Len(out) <= Len(inp) /\ out = SubSeq(inp, 1, Len(out))
 
 (* the final flush has nothing to flush on a well-formed stream *)
 FlushEmpty == encinc /\ ph = "dec" /\ pos = Len(wire) => pending = <<>>
